@@ -265,7 +265,7 @@ def rule_startup_wiring(ctx):
 
 
 RULES = [
-    Rule("R-C05-8", "startup rescans are wired to their reactions", rule_startup_wiring, min_instances=5),
+    Rule("R-C05-8", "startup rescans are wired to their reactions", rule_startup_wiring, min_instances=6),
     Rule("R-C05-1", "all SQL runs inside one transaction region; none nests", rule_transactions, min_instances=30),
     Rule("R-C05-2", "completion units are one transaction", rule_atomic_units, min_instances=4),
     Rule("R-C05-3", "every transient state has a recovery", rule_recovery, min_instances=10),
@@ -276,6 +276,7 @@ RULES = [
 ]
 
 MUTANTS = [
+    Mutant("env-value-stored-in-own-transaction", "startup.py", in_function("rescan_env_vars", lambda t: t.replace("            for node_i, name in changed_uses:\n                steps_to_rerun[node_i].refresh_env_dep(name)\n", "", 1).replace("        async with workflow.db:\n            for step in steps_to_rerun.values():\n", "        async with workflow.db:\n            for node_i, name in changed_uses:\n                steps_to_rerun[node_i].refresh_env_dep(name)\n        async with workflow.db:\n            for step in steps_to_rerun.values():\n", 1) if "steps_to_rerun[node_i].refresh_env_dep(name)" in t else None), ("R-C05-8",)),
     Mutant("rescan-files-goes-nowhere", "startup.py", in_function("rescan_files", replace_once("        path_hash_causes.append((path, old_file_hash, cause))\n", "        pass\n")), ("R-C05-8",)),
     Mutant("rescan-nglobs-goes-nowhere", "startup.py", in_function("rescan_nglobs", replace_once("            changed_nglobs.append((nglob_i, step, new_ng))\n", "            pass\n")), ("R-C05-8",)),
     Mutant("rescan-env-forgets-value", "startup.py", in_function("rescan_env_vars", replace_once("        changed_uses.append((node_i, name))\n", "")), ("R-C05-8",)),
